@@ -221,7 +221,9 @@ func TestVerifC11Proxy(t *testing.T) {
 		default:
 			rep.Hist("shape-undecidable")
 		}
-		if (want == 1 && !d1) || (want == 0 && !d0) {
+		if (want == 1 && d1 && !e1) || (want == 0 && d0 && !e0) {
+			rep.Fail("decodable", key("misframed"), fmt.Sprintf("proxy %s reply for %s v%d decodes only leniently: re-encoding the decoded response gives different bytes", cs.Path, name, cs.Version), cs)
+		} else if (want == 1 && !d1) || (want == 0 && !d0) {
 			rep.Fail("decodable", key("undecodable"), fmt.Sprintf("proxy %s reply for %s v%d does not decode with the %s header", cs.Path, name, cs.Version, []string{"non-flexible", "flexible"}[want]), cs)
 		} else if shape != want {
 			rep.Fail("header-shape", key("header-shape"), fmt.Sprintf("proxy %s reply for %s v%d: header shape %d, Kafka rule says %d", cs.Path, name, cs.Version, shape, want), cs)
